@@ -22,6 +22,7 @@ func init() {
 			{"C20.one-switch", "the Compressor layer is selected by the same option as the extension", 1, c20OneSwitch},
 			{"C20.write-format", "the local store writes and reads through its own converters and names", 3, c20WriteFormat},
 			{"C20.filters", "verify/prune extension filters follow the option", 10, c16FormatFilter},
+			{"C20.prune-own-format", "prune removes objects named from the parsed id (the store's own format), only on a keep-set miss", 4, c16KeepSet},
 			{"C20.compress-api", "Compress/Decompress present with the expected signatures", 2, c20CompressAPI},
 		},
 	})
